@@ -99,6 +99,12 @@ type Op struct {
 	// The model runs the same command on the positions: C05_uid_forms_flush_alike.
 	ByUID bool  `json:"byuid,omitempty"`
 	UIDs  []int `json:"uids,omitempty"`
+	// All: the message set is written 1:* (Ps is filled in by the generator's exec with 1..count of the client mirror)
+	All bool `json:"all,omitempty"`
+	// Count: number of messages of a "newbulk" connector op (one MessagesCreated carrying them all)
+	Count int `json:"count,omitempty"`
+	// Label: this MOVE meets a connector with label semantics (MoveMessages answers false): rendered as CMoveLabel
+	Label bool `json:"label,omitempty"`
 }
 
 func natList(xs []int) string {
@@ -117,6 +123,8 @@ func (o Op) Coq() string {
 		switch o.Cmd {
 		case "new":
 			return fmt.Sprintf("Conn (XNew %d %s)", o.Mb, common.CoqNList(o.Flags))
+		case "newbulk":
+			return fmt.Sprintf("Conn (XNewBulk %d %d%%nat)", o.Mb, o.Count)
 		case "flag":
 			return fmt.Sprintf("Conn (XFlag %d %d %s)", o.Msg, o.Flag, common.CoqBool(o.Add))
 		case "delete":
@@ -140,6 +148,9 @@ func (o Op) Coq() string {
 			c = fmt.Sprintf("CCopy %s %d", natList(o.Ps), o.Mb)
 		case "move":
 			c = fmt.Sprintf("CMove %s %d", natList(o.Ps), o.Mb)
+			if o.Label {
+				c = fmt.Sprintf("CMoveLabel %s %d", natList(o.Ps), o.Mb)
+			}
 		}
 		if o.RO && (o.Cmd == "store" || o.Cmd == "expunge" || o.Cmd == "copy" || o.Cmd == "move") {
 			c = "CSearchBad" // ErrReadOnly: answered NO after the trailing flush only; nothing changes
@@ -206,6 +217,8 @@ func (o Op) String() string {
 		switch o.Cmd {
 		case "new":
 			return fmt.Sprintf("Conn new m%d %v", o.Mb, o.Flags)
+		case "newbulk":
+			return fmt.Sprintf("Conn newbulk m%d x%d", o.Mb, o.Count)
 		case "flag":
 			return fmt.Sprintf("Conn flag msg%d %d %v", o.Msg, o.Flag, o.Add)
 		case "delete":
@@ -369,6 +382,13 @@ func convResp(evs []imapc.Ev, probe bool, bodyFetch ...bool) []Resp {
 
 var reIssued = regexp.MustCompile(`EXPUNGEISSUED`)
 
+func (o Op) setString() string {
+	if o.All && !o.ByUID {
+		return "1:*"
+	}
+	return psString(o.set())
+}
+
 func psString(ps []int) string {
 	s := make([]string, len(ps))
 	for i, p := range ps {
@@ -460,13 +480,15 @@ func (w *World) Do(o Op) (StepObs, error) {
 		if o.Silent {
 			item += ".SILENT"
 		}
-		r, err = c.Cmd(fmt.Sprintf("%sSTORE %s %s (%s)", o.uidPrefix(), psString(o.set()), item, flagString(o.Flags)))
+		r, err = c.Cmd(fmt.Sprintf("%sSTORE %s %s (%s)", o.uidPrefix(), o.setString(), item, flagString(o.Flags)))
 	case "expunge":
 		r, err = c.Cmd("EXPUNGE")
 	case "copy":
-		r, err = c.Cmd(fmt.Sprintf("%sCOPY %s m%d", o.uidPrefix(), psString(o.set()), o.Mb))
+		r, err = c.Cmd(fmt.Sprintf("%sCOPY %s m%d", o.uidPrefix(), o.setString(), o.Mb))
 	case "move":
-		r, err = c.Cmd(fmt.Sprintf("%sMOVE %s m%d", o.uidPrefix(), psString(o.set()), o.Mb))
+		w.Conn.LabelMove = o.Label
+		r, err = c.Cmd(fmt.Sprintf("%sMOVE %s m%d", o.uidPrefix(), o.setString(), o.Mb))
+		w.Conn.LabelMove = false
 	case "fetchbody":
 		r, err = c.Cmd(fmt.Sprintf("%sFETCH %s (BODY[])", o.uidPrefix(), psString(o.set())))
 	case "fetchflagsbody":
@@ -577,6 +599,25 @@ func (w *World) doConn(o Op) (StepObs, error) {
 		u = imap.NewMessagesCreated(false, &imap.MessageCreated{
 			Message: imap.Message{ID: rid, Flags: flags, Date: time.Date(2024, 1, 1, 10, 0, 0, 0, time.UTC)}, Literal: lit,
 			MailboxIDs: []imap.MailboxID{w.mboxRemote(o.Mb)}, ParsedMessage: parsed})
+	case "newbulk":
+		var msgs []*imap.MessageCreated
+		for k := 0; k < o.Count; k++ {
+			w.MsgCount++
+			marker := fmt.Sprintf("msg%d", w.MsgCount)
+			lit := common.Message(marker, "body of "+marker)
+			parsed, err := imap.NewParsedMessage(lit)
+			if err != nil {
+				return StepObs{}, err
+			}
+			rid := imap.MessageID(fmt.Sprintf("conn-%d", w.MsgCount))
+			w.Remote[w.MsgCount] = rid
+			flags := imap.NewFlagSet()
+			w.Conn.Messages[rid] = &hconn.Msg{Literal: lit, Flags: flags, Mboxes: map[imap.MailboxID]bool{w.mboxRemote(o.Mb): true}}
+			msgs = append(msgs, &imap.MessageCreated{
+				Message: imap.Message{ID: rid, Flags: flags, Date: time.Date(2024, 1, 1, 10, 0, 0, 0, time.UTC)}, Literal: lit,
+				MailboxIDs: []imap.MailboxID{w.mboxRemote(o.Mb)}, ParsedMessage: parsed})
+		}
+		u = imap.NewMessagesCreated(false, msgs...)
 	case "flag":
 		cur, _ := w.CurFlags(o.Msg)
 		var fl []string
